@@ -80,7 +80,15 @@ fn obs(o: Out<f32>) -> O {
 /// command in force (a followed getter that keeps returning the command in force is itself a stream of
 /// set(same) calls and is covered by the reference, which does not restart on it)
 fn run_real(c: &Case, drop_same_sets: bool) -> Result<Vec<(Result<(), Error<E>>, O)>, String> {
+    run_alongside(c, drop_same_sets, false)
+}
+/// `alongside`: a second CommandPID with other gains and command is updated with the same timestamps (other states) just
+/// before the one under test at every step
+fn run_alongside(c: &Case, drop_same_sets: bool, alongside: bool) -> Result<Vec<(Result<(), Error<E>>, O)>, String> {
     catch(|| {
+        let dsrc = Src::<State>::new();
+        let dk = PositionDerivativeDependentPIDKValues::new(PIDKValues::new(0.5, -2.0, 0.125), PIDKValues::new(1.5, 0.25, -1.0), PIDKValues::new(-0.75, 3.0, 0.5));
+        let mut other: CommandPID<dyn Getter<State, E>, E> = CommandPID::new(dsrc.dynref(), Command::new(PositionDerivative::from(c.cmd0), 1.0 - f32::from(c.cmd0)), dk);
         let src = Src::<State>::new();
         let cs = Src::<Command>::new();
         let k = PositionDerivativeDependentPIDKValues::new(
@@ -106,6 +114,11 @@ fn run_real(c: &Case, drop_same_sets: bool) -> Result<Vec<(Result<(), Error<E>>,
             }
             if c.following {
                 if let Ok(Some(d)) = cs.0.borrow().out.clone() { if d.value != cur { cur = d.value; } }
+            }
+            if alongside {
+                match &s.input { Ev::Some(t, v) => dsrc.some(*t, State::new_raw(3.0 - 0.5 * v[0], 1.0 + v[2], -v[1])), Ev::None => dsrc.none(), Ev::Err(e) => dsrc.err(*e) }
+                let _ = other.update();
+                let _ = other.get();
             }
             match &s.input { Ev::Some(t, v) => src.some(*t, State::new_raw(v[0], v[1], v[2])), Ev::None => src.none(), Ev::Err(e) => src.err(*e) }
             let u = pid.update();
@@ -243,6 +256,21 @@ fn main() {
         }
         let _ = kinds_seen;
         if !ok_case { continue; }
+        // ---- a second controller living (and being updated with the same timestamps) alongside changes nothing
+        match run_alongside(&c, false, true) {
+            Ok(al) => {
+                rep.eval();
+                rep.tally("runs_with_a_second_instance_alongside");
+                for i in 0..real.len().min(al.len()) {
+                    let same_out = match (&real[i].1, &al[i].1) { (O::Some(t, v), O::Some(t2, v2)) => t == t2 && same(*v, *v2), (a, b) => a == b };
+                    if !same_out || real[i].0 != al[i].0 {
+                        rep.violation("C11/instances-not-independent", "cmdpid", case, format!("step {}: alone {:?}, with a second CommandPID updated alongside {:?}; case={:?}", i, real[i], al[i], c));
+                        break;
+                    }
+                }
+            }
+            Err(m) => rep.violation("C11/panic", "cmdpid", case, format!("alongside: {} case={:?}", m, c)),
+        }
         // ---- set(same) == no event: twin that never receives a set equal to the command in force
         if c.steps.iter().any(|s| s.set.is_some()) {
             match run_real(&c, true) {
